@@ -93,6 +93,7 @@ Lemma gchange_sstate sp c n :
   ss_state (span_gchange sp c n) = fold_left hstep (sev n c) (ss_state (sp n)).
 Proof.
   destruct c as [sc|sc|T|T|T cs|a b|k]; simpl; try (rewrite on_tab_state); try reflexivity.
+  3: { destruct (gt_schema a); [rewrite on_tab_state|]; reflexivity. }
   - destruct (name_eqb (gs_name sc) n) eqn:E.
     + apply name_eqb_eq in E; subst. rewrite upd_same. reflexivity.
     + apply name_eqb_neq in E. rewrite upd_other by assumption. reflexivity.
@@ -110,9 +111,11 @@ Proof.
 Qed.
 
 Lemma gchange_tstate sp c s t :
+  is_rename c = false \/ (exists T cs, c = GModifyTable T cs) ->
   ts_state (ss_tabs (span_gchange sp c s) t) = fold_left hstep (tev s t c) (ts_state (ss_tabs (sp s) t)).
 Proof.
-  destruct c as [sc|sc|T|T|T cs|a b|k]; simpl; try reflexivity.
+  intros NR. destruct c as [sc|sc|T|T|T cs|a b|k]; simpl; try reflexivity.
+  6: { destruct NR as [NR|[T [cs NR]]]; discriminate. }
   - rewrite schema_change_tabs. reflexivity.
   - rewrite schema_change_tabs. reflexivity.
   - rewrite on_tab_tabs. destruct (tab_is T s t); reflexivity.
@@ -129,33 +132,35 @@ Proof.
   rewrite orb_false_r. unfold upd. destruct (name_eqb (gc_name x) c); reflexivity.
 Qed.
 
-Lemma gtchange_col m tc c : span_gtchange m tc c = fold_left hstep (cev_t c tc) (m c).
+Lemma gtchange_col m tc c : is_rename_t tc = false -> span_gtchange m tc c = fold_left hstep (cev_t c tc) (m c).
 Proof.
-  destruct tc as [c1|c1|a b|k n]; simpl; try reflexivity.
+  intros NR. destruct tc as [c1|c1|a b|k n]; simpl; try reflexivity; try discriminate.
   - unfold upd. destruct (name_eqb (gc_name c1) c); reflexivity.
   - unfold upd. destruct (name_eqb (gc_name c1) c) eqn:E; [|reflexivity].
     apply name_eqb_eq in E; subst. reflexivity.
 Qed.
 
-Lemma fold_gtchange cs : forall m c,
+Lemma fold_gtchange cs : forall m c, existsb is_rename_t cs = false ->
   fold_left span_gtchange cs m c = fold_left hstep (flat_map (cev_t c) cs) (m c).
 Proof.
-  induction cs as [|x cs IH]; intros m c; simpl; [reflexivity|].
-  rewrite IH. rewrite fold_left_app. rewrite gtchange_col. reflexivity.
+  induction cs as [|x cs IH]; intros m c NR; simpl; [reflexivity|].
+  simpl in NR. apply orb_false_iff in NR as [N1 N2].
+  rewrite IH by assumption. rewrite fold_left_app. rewrite gtchange_col by assumption. reflexivity.
 Qed.
 
 Lemma gchange_cstate sp ch s t c :
+  is_rename ch = false ->
   ts_cols (ss_tabs (span_gchange sp ch s) t) c =
   fold_left hstep (cev s t c ch) (ts_cols (ss_tabs (sp s) t) c).
 Proof.
-  destruct ch as [sc|sc|T|T|T cs|a b|k]; simpl; try reflexivity.
+  intros NR. destruct ch as [sc|sc|T|T|T cs|a b|k]; simpl; try reflexivity; try discriminate.
   - rewrite schema_change_tabs. reflexivity.
   - rewrite schema_change_tabs. reflexivity.
   - rewrite on_tab_tabs. destruct (tab_is T s t); simpl; [|reflexivity].
     rewrite fold_gaddcols. destruct (existsb _ (gt_cols T)); reflexivity.
   - rewrite on_tab_tabs. destruct (tab_is T s t); reflexivity.
   - rewrite on_tab_tabs. destruct (tab_is T s t); simpl; [|reflexivity].
-    apply fold_gtchange.
+    apply fold_gtchange. exact NR.
 Qed.
 
 Lemma fold_sstate chs : forall sp n,
@@ -165,39 +170,44 @@ Proof.
   rewrite IH, fold_left_app, gchange_sstate. reflexivity.
 Qed.
 Lemma fold_tstate chs : forall sp s t,
+  forallb (fun c => negb (is_rename c)) chs = true ->
   ts_state (ss_tabs (fold_left span_gchange chs sp s) t) =
   fold_left hstep (flat_map (tev s t) chs) (ts_state (ss_tabs (sp s) t)).
 Proof.
-  induction chs as [|c chs IH]; intros sp s t; simpl; [reflexivity|].
-  rewrite IH, fold_left_app, gchange_tstate. reflexivity.
+  induction chs as [|c chs IH]; intros sp s t NR; simpl; [reflexivity|].
+  simpl in NR. apply andb_true_iff in NR as [N1 N2]. apply negb_true_iff in N1.
+  rewrite IH by assumption. rewrite fold_left_app, gchange_tstate by (left; assumption). reflexivity.
 Qed.
 Lemma fold_cstate chs : forall sp s t c,
+  forallb (fun c => negb (is_rename c)) chs = true ->
   ts_cols (ss_tabs (fold_left span_gchange chs sp s) t) c =
   fold_left hstep (flat_map (cev s t c) chs) (ts_cols (ss_tabs (sp s) t) c).
 Proof.
-  induction chs as [|x chs IH]; intros sp s t c; simpl; [reflexivity|].
-  rewrite IH, fold_left_app, gchange_cstate. reflexivity.
+  induction chs as [|x chs IH]; intros sp s t c NR; simpl; [reflexivity|].
+  simpl in NR. apply andb_true_iff in NR as [N1 N2]. apply negb_true_iff in N1.
+  rewrite IH by assumption. rewrite fold_left_app, gchange_cstate by assumption. reflexivity.
 Qed.
 
 Lemma SchemaSpan_hist cl s : SchemaSpan_g (loadSpans_g cl) s = state_of (schema_hist cl s).
 Proof. unfold SchemaSpan_g. rewrite loadSpans_g_unfold, fold_sstate. reflexivity. Qed.
-Lemma TableSpan_hist cl s t : TableSpan_g (loadSpans_g cl) s t = state_of (table_hist cl s t).
-Proof. unfold TableSpan_g. rewrite loadSpans_g_unfold, fold_tstate. reflexivity. Qed.
-Lemma ColumnSpan_hist cl s t c : ColumnSpan_g (loadSpans_g cl) s t c = state_of (column_hist cl s t c).
-Proof. unfold ColumnSpan_g. rewrite loadSpans_g_unfold, fold_cstate. reflexivity. Qed.
+Lemma TableSpan_hist cl s t : rename_free cl -> TableSpan_g (loadSpans_g cl) s t = state_of (table_hist cl s t).
+Proof. intros NR. unfold TableSpan_g. rewrite loadSpans_g_unfold, fold_tstate by exact NR. reflexivity. Qed.
+Lemma ColumnSpan_hist cl s t c : rename_free cl -> ColumnSpan_g (loadSpans_g cl) s t c = state_of (column_hist cl s t c).
+Proof. intros NR. unfold ColumnSpan_g. rewrite loadSpans_g_unfold, fold_cstate by exact NR. reflexivity. Qed.
 
 Lemma spans_are_histories cl s t c :
   SchemaSpan_g (loadSpans_g cl) s = state_of (schema_hist cl s) /\
-  TableSpan_g (loadSpans_g cl) s t = state_of (table_hist cl s t) /\
-  ColumnSpan_g (loadSpans_g cl) s t c = state_of (column_hist cl s t c).
-Proof. split; [apply SchemaSpan_hist|]. split; [apply TableSpan_hist|apply ColumnSpan_hist]. Qed.
+  (rename_free cl ->
+   TableSpan_g (loadSpans_g cl) s t = state_of (table_hist cl s t) /\
+   ColumnSpan_g (loadSpans_g cl) s t c = state_of (column_hist cl s t c)).
+Proof. split; [apply SchemaSpan_hist|]. intros NR. split; [apply TableSpan_hist|apply ColumnSpan_hist]; exact NR. Qed.
 
 (** ** The diagnostics, exactly *)
-Lemma gdropped_reported cl s T cs :
+Lemma gdropped_reported cl s T cs : rename_free cl ->
   gdropped_names (loadSpans_g cl) s T cs = reported_cols cl s T cs.
 Proof.
-  unfold gdropped_names, reported_cols. apply flat_map_ext. intros c.
-  destruct c; try reflexivity. rewrite ColumnSpan_hist. reflexivity.
+  intros NR. unfold gdropped_names, reported_cols. apply flat_map_ext. intros c.
+  destruct c; try reflexivity. rewrite ColumnSpan_hist by exact NR. reflexivity.
 Qed.
 
 Lemma in_reported_cols cl s T cs n :
@@ -259,17 +269,17 @@ Proof.
   - apply temp_history_has_add in S. rewrite forallb_forall in Hall. apply Hall in S. discriminate.
 Qed.
 
-Lemma analyze_gchange_spec cl pos c d :
+Lemma analyze_gchange_spec cl pos c d : rename_free cl ->
   In d (analyze_gchange (loadSpans_g cl) pos c) <-> diag_of cl pos c d.
 Proof.
-  destruct c as [sc|sc|T|T|T cs|a b|k]; simpl; try tauto.
+  intros NR. destruct c as [sc|sc|T|T|T cs|a b|k]; simpl; try tauto.
   - rewrite SchemaSpan_hist. destruct (span_eqb _ SpanTemporary) eqn:E.
     + apply span_eqb_eq in E. rewrite state_temp_iff in E. simpl. tauto.
     + apply span_eqb_neq in E. rewrite state_temp_iff in E. simpl. split.
       * intros [H|[]]. auto.
       * intros [H _]. auto.
   - destruct (gt_schema T) as [s|]; [|simpl; split; [tauto|intros [s [H _]]; discriminate]].
-    rewrite SchemaSpan_hist, TableSpan_hist.
+    rewrite SchemaSpan_hist, TableSpan_hist by exact NR.
     destruct (span_eqb (state_of (schema_hist cl s)) SpanDropped) eqn:E1; simpl.
     + apply span_eqb_eq in E1. rewrite dropped_state_iff in E1. split; [tauto|].
       intros [s' [Hs [_ [H _]]]]. inversion Hs; subst. contradiction.
@@ -281,7 +291,7 @@ Proof.
         -- intros [H|[]]. exists s. auto.
         -- intros [s' [Hs [H _]]]. auto.
   - destruct (gt_schema T) as [s|]; [|simpl; split; [tauto|intros [s [H _]]; discriminate]].
-    rewrite gdropped_reported. destruct (reported_cols cl s T cs) eqn:E.
+    rewrite gdropped_reported by exact NR. destruct (reported_cols cl s T cs) eqn:E.
     + simpl. split; [tauto|]. intros [s' [Hs [_ Hne]]]. inversion Hs; subst s'. rewrite E in Hne. congruence.
     + split.
       * intros [H|[]]. exists s. rewrite E. split; [reflexivity|]. split; [auto|discriminate].
@@ -290,12 +300,13 @@ Qed.
 
 (** exact characterisation of the report of Analyze on ANY change list *)
 Lemma Analyze_g_exact error cl ds rep err :
+  rename_free cl ->
   Analyze_g error cl = GDone ds rep err ->
   forall d, In d ds <-> exists sc c, In sc cl /\ In c (gsc_changes sc) /\ diag_of cl (gsc_pos sc) c d.
 Proof.
-  intros H d. apply Analyze_g_done in H as [E _]. subst. rewrite gdiags_in.
+  intros NR H d. apply Analyze_g_done in H as [E _]. subst. rewrite gdiags_in.
   split; intros [sc [c [H1 [H2 H3]]]]; exists sc, c; (split; [assumption|]); (split; [assumption|]);
-    apply analyze_gchange_spec; assumption.
+    apply (analyze_gchange_spec _ _ _ _ NR); assumption.
 Qed.
 
 Lemma Analyze_g_exit error cl ds rep err :
@@ -322,6 +333,7 @@ Qed.
 
 (** ** Completeness on arbitrary change lists *)
 Lemma complete_generic error cl ds rep err :
+  rename_free cl ->
   Analyze_g error cl = GDone ds rep err ->
   (forall sc S0, In sc cl -> In (GDropSchema S0) (gsc_changes sc) ->
      ~ temp_history (schema_hist cl (gs_name S0)) ->
@@ -337,7 +349,7 @@ Lemma complete_generic error cl ds rep err :
      exists ns, In (mkGD GDS103 (gsc_pos sc) ns 0%N) ds /\ In (gc_name d) ns) /\
   (ds <> [] -> rep = true /\ err = error).
 Proof.
-  intros H. pose proof (Analyze_g_exact _ _ _ _ _ H) as X. split; [|split; [|split]].
+  intros NR H. pose proof (Analyze_g_exact _ _ _ _ _ NR H) as X. split; [|split; [|split]].
   - intros sc S0 H1 H2 H3. apply X. exists sc, (GDropSchema S0). simpl. auto.
   - intros sc T s H1 H2 H3 H4.
     destruct (span_eqb (state_of (schema_hist cl s)) SpanDropped) eqn:E.
@@ -374,10 +386,11 @@ Definition sound_diag (cl : list gschange) (sc : gschange) (d : gdiag) : Prop :=
   end.
 
 Lemma sound_generic error cl ds rep err :
+  rename_free cl ->
   Analyze_g error cl = GDone ds rep err ->
   forall d, In d ds -> exists sc, In sc cl /\ gd_pos d = gsc_pos sc /\ sound_diag cl sc d.
 Proof.
-  intros H d Hd. apply (Analyze_g_exact _ _ _ _ _ H) in Hd as [sc [c [H1 [H2 H3]]]].
+  intros NR H d Hd. apply (Analyze_g_exact _ _ _ _ _ NR H) in Hd as [sc [c [H1 [H2 H3]]]].
   exists sc. split; [assumption|].
   destruct c as [S0|S0|T|T|T cs|a b|k]; simpl in H3; try contradiction.
   - destruct H3 as [E Hn]. subst d. split; [reflexivity|]. unfold sound_diag; simpl. exists S0. auto.
@@ -441,3 +454,31 @@ Lemma New_error_first ty attrs rest :
   New_error ((ty, attrs) :: rest) =
   match find (fun a => name_eqb (fst a) s_error) attrs with None => true | Some a => snd a end.
 Proof. intros E. subst. unfold New_error. simpl. reflexivity. Qed.
+
+(** ** fix C18-loadspans-rename: what a rename does to the spans (one loadSpans step) *)
+Lemma rename_table_carries_span sp F T sf st :
+  gt_schema F = Some sf -> gt_schema T = Some st ->
+  let sp' := span_gchange sp (GRenameTable F T) in
+  TableSpan_g sp' st (gt_name T) = TableSpan_g sp sf (gt_name F) /\
+  (forall c, ColumnSpan_g sp' st (gt_name T) c = ColumnSpan_g sp sf (gt_name F) c) /\
+  (forall s t, tab_is T s t = false -> ss_tabs (sp' s) t = ss_tabs (sp s) t) /\
+  (forall s, SchemaSpan_g sp' s = SchemaSpan_g sp s).
+Proof.
+  intros HF HT. simpl. rewrite HF. unfold TableSpan_g, ColumnSpan_g, SchemaSpan_g.
+  assert (X : tab_is T st (gt_name T) = true) by (unfold tab_is; rewrite HT, !name_eqb_refl; reflexivity).
+  split; [rewrite on_tab_tabs, X; reflexivity|]. split; [intros c; rewrite on_tab_tabs, X; reflexivity|].
+  split; [intros s t N; rewrite on_tab_tabs, N; reflexivity|intros s; apply on_tab_state].
+Qed.
+
+Lemma rename_column_carries_span cols a b c :
+  let cols' := span_gtchange cols (GRenameColumn a b) in
+  (gc_name a <> gc_name b -> cols' (gc_name b) = cols (gc_name a)) /\
+  cols' (gc_name a) = SpanUnknown /\
+  (c <> gc_name a -> c <> gc_name b -> cols' c = cols c).
+Proof.
+  simpl. split; [|split].
+  - intros N. rewrite upd_other by assumption. apply upd_same.
+  - apply upd_same.
+  - intros N1 N2. rewrite upd_other by (intros E; apply N1; symmetry; assumption).
+    apply upd_other. intros E; apply N2; symmetry; assumption.
+Qed.
